@@ -9,7 +9,7 @@ deserialisation accepts and on every generated private key, all three parameter 
       (one whole pkEncode item, or rho and the k packed polynomials absorbed piecewise) and read
       once at offset 0.  Anything else (zeroed, truncated, hashed over fewer polynomials) is reported.
   D3  the matrix used to recompute t is ExpandA(private key's rho) with the FIPS index bytes / order.
-  D4  Power2Round is applied exactly once on the derivation path, to a fully reduced t (and is exact on all of Z_q: C15 engine).
+  D4  Power2Round is applied exactly once on the derivation path, to a fully reduced t (and is exact on all of Z_q: C15 engine); CoeffFromThreeBytes equals Alg. 14.
   D5  the derived key is a member of the same abstract class as generated / deserialised keys: its
       t1-precompute range is inside the range proved for them, so every obligation discharged for
       verification with generated keys (C02 R4, C13, C18) also covers derived keys; verify /
@@ -90,7 +90,7 @@ def main(tier):
             rep.violation(key, detail)
 
     samples = analyse(rep, ob, tier)
-    ksamples, kstats = c15.analyse(rep, ob, tier, {"power2round"}, prefix="D4:")
+    ksamples, kstats = c15.analyse(rep, ob, tier, {"power2round", "three_bytes"}, prefix="D4:")
     cov = {
         "obligations": cnt[0], "discharged": cnt[1],
         "checker_cmd": "python3 bin/check C11 (driver ai mode: exact-copy provenance tags, hash probes, obligations with the derived key)",
@@ -110,7 +110,7 @@ def analyse(rep, ob, tier, prefix="", with_use=True):
     jobs = {}
     for s in sets:
         n = roots.names(s)
-        J = [("%s:derive/%s" % (s, p), n["get_public_key"], {"sk": p, "probe": "high_low::power2round"}) for p in roots.SK_PRODUCERS]
+        J = [("%s:derive/%s" % (s, p), n["get_public_key"], {"sk": p, "probe": "high_low::power2round|hashing::rej_ntt_poly"}) for p in roots.SK_PRODUCERS]
         J += [("%s:ref/keygen" % s, n["keygen_from_seed"], {}), ("%s:ref/from_bytes" % s, n["pk_from_bytes"], {})]
         for root in (("verify", "hash_verify", "internal_verify") if with_use else ()):
             J.append(("%s:use/%s" % (s, root), n[root], {"pk": "derived_from_bytes", "len.ctx": "0..255"}))
@@ -178,6 +178,7 @@ def analyse(rep, ob, tier, prefix="", with_use=True):
                                          "tr": tr, "how": how, "hash_instance": seen, "pk_len": P["pk_len"]})
             # D3
             st.expand_a(j, P, ob, "private_to_public_key", "derive:%s" % prod, lambda src: src.startswith("in."))
+            st.sampler_fill(j, ob, "derive:%s" % prod, {"rej_ntt_poly": P["k"] * P["l"]})
             ea = [x for x in xs if x["path"].endswith("private_to_public_key>expand_a>rej_ntt_poly>g128_xof")]
             ob(bool(ea) and all(x["items"][0].get("tag") == "sk.rho" for x in ea), "D3:matrix-seed:%s" % prod,
                {"rule": "D3 every ExpandA instance absorbs the private key's rho", "entry": j["root"], "set": s, "tags": sorted({str(x["items"][0].get("tag")) for x in ea})})
